@@ -141,12 +141,18 @@ def sites_of(path, text):
     return sorted(res, key=lambda s: (s[1], s[2], s[0]))
 
 
+KINDS = tuple(k for k in os.environ.get('CAMPAIGN_KINDS', 'cmp,arith,minmax,const,beginend,neg,not,bool').split(',') if k)
+
+
 def all_sites(repo='/repo'):
+    """deterministic list of sites; statement deletions are generated but not selected by default (most of them only remove a
+    registration in a look-up table and are equivalent)"""
     out = []
     for rel in source_files(repo):
         text = open(os.path.join(repo, 'rtamt', rel)).read()
         for s in sites_of(rel, text):
-            out.append((rel,) + s)
+            if s[0] in KINDS:
+                out.append((rel,) + s)
     return out
 
 
